@@ -133,6 +133,7 @@ type bWorld struct {
 	tv         *simenv.SimTimeValidator
 
 	monCh, toCh chan time.Time
+	redeliveries int
 	pendingTick string
 	passKind    string // the kind of the writer pass in progress ("startup", "monitor", "timeout")
 	maxOps      uint
@@ -390,6 +391,28 @@ func runWorldB(rc *RunCtx, prop string) *RunResult {
 		// every version enables both hash algorithms (a DID keeps the algorithm it was created with); the primary one varies
 		p.MultihashAlgorithms = [][]uint{{simenv.SHA2_256, simenv.SHA2_512}, {simenv.SHA2_512, simenv.SHA2_256}}[(i+T.Draw(2, "cfg.hashset"))%2]
 
+		// a later version may retire one signing-key type (curve and signature algorithm): DIDs held under such keys can no
+		// longer submit, but everything accepted before the switch is still batched, read back and applied under its own version
+		if i > 0 && T.Draw(4, "cfg.retire.alg") == 0 {
+			kt := workload.KeyType(1 + T.Draw(int(workload.NumKeyTypes)-1, "cfg.retire.which"))
+
+			var ka, sa []string
+
+			for _, a := range p.KeyAlgorithms {
+				if a != kt.String() {
+					ka = append(ka, a)
+				}
+			}
+
+			for _, a := range p.SignatureAlgorithms {
+				if a != kt.Alg() {
+					sa = append(sa, a)
+				}
+			}
+
+			p.KeyAlgorithms, p.SignatureAlgorithms = ka, sa
+		}
+
 		// a version may not know the also-known-as patch actions (an earlier one that predates them, or a later one that
 		// retired them): operations are validated and applied under the version that accepted them, whatever is current
 		if T.Draw(4, "cfg.aka.off") == 0 {
@@ -622,6 +645,17 @@ func (w *bWorld) genPatches(create bool) []workload.PatchDesc {
 	return out
 }
 
+// keyTypeEnabled: does the protocol version that is current now accept signing keys of this type?
+func (w *bWorld) keyTypeEnabled(kt workload.KeyType) bool {
+	for _, a := range w.proto.CurrentVersion().P.KeyAlgorithms {
+		if a == kt.String() {
+			return true
+		}
+	}
+
+	return false
+}
+
 // akaEnabled: does the protocol version that is current now know the also-known-as patch actions?
 func (w *bWorld) akaEnabled() bool {
 	for _, a := range w.proto.CurrentVersion().P.Patches {
@@ -772,6 +806,10 @@ func (w *bWorld) clientStep(d *bDID) {
 		if k.Draining() {
 			return
 		}
+
+		// (time has passed while waiting: the client builds its request for the protocol version that is current NOW)
+		v = w.proto.CurrentVersion()
+		hash = v.P.MultihashAlgorithms[0]
 	}
 
 	if d.Create == nil {
@@ -843,6 +881,13 @@ func (w *bWorld) clientStep(d *bDID) {
 	}
 
 	if d.Suffix == "" {
+		return
+	}
+
+	// the current protocol version may have retired this DID's key type: its controller cannot submit any more
+	if !w.keyTypeEnabled(d.KeyType) {
+		k.Count("probe:key-type-retired-by-current-version")
+
 		return
 	}
 
@@ -1255,6 +1300,11 @@ func (w *bWorld) submit(op *bOp) {
 
 		// a retried request may arrive after a protocol switch to a version that does not know one of its patch actions
 		if usesAKA(op) && !w.akaEnabled() {
+			legit = true
+			k.Count("probe:retry-refused-by-newer-version")
+		}
+
+		if op.Type != operation.TypeCreate && !w.keyTypeEnabled(d.KeyType) {
 			legit = true
 			k.Count("probe:retry-refused-by-newer-version")
 		}
@@ -1780,6 +1830,23 @@ func (w *bWorld) env() []simkit.Action {
 
 	if w.rates["byz.txn"] > 0 && !w.faultsOff && w.byzTxns < 6 && len(w.ledger.Txns) > 0 {
 		a = append(a, simkit.Action{Label: "byzantine txn", Do: w.byzantineTxn})
+	}
+
+	// the ledger hands a transaction whose processing failed to the SAME observer instance once more (catch-up)
+	if w.redeliveries < 3 && len(w.inFlight) == 0 && len(w.sub.Ch) == 0 && !k.IsParked("O") {
+		for _, t := range w.txns {
+			if t.Honest && t.Delivered && t.Faulted && t.Puts == 0 && len(t.Included) > 0 {
+				t := t
+				a = append(a, simkit.Action{Label: "redeliver failed txn", Do: func() {
+					w.redeliveries++
+					t.Delivered, t.Faulted = false, false
+					k.Count("fault:redelivery-of-failed-txn")
+					k.Tr.Logf("  txn%d, whose processing failed, will be delivered again", t.Idx)
+				}})
+
+				break
+			}
+		}
 	}
 
 	return a
